@@ -41,6 +41,9 @@ package unused
 //@ requires forall r int :: {relates[r]} 0 <= r && r < len(relates) ==> Qualified(relates[r].OldObj) && Qualified(relates[r].NewObj)
 //@ modifies files
 //@ assert before updateSelfRefs#1 pkgNode.Package + pkgNode.NodeName == (*oldInfo).Package + (*oldInfo).Class && method.Name == (*oldInfo).Method
+// calls are rewritten in every class, the declaring class included, and whether or not a declaration was rewritten before
+//@ cover before updateSelfRefs#2 pkgNode.Package + pkgNode.NodeName == (*oldInfo).Package + (*oldInfo).Class
+//@ cover before updateSelfRefs#2 pkgNode.Package + pkgNode.NodeName != (*oldInfo).Package + (*oldInfo).Class
 //@ assert before updateSelfRefs#2 methodCall.Package + methodCall.NodeName == (*oldInfo).Package + (*oldInfo).Class && methodCall.FunctionName == (*oldInfo).Method
 
 // a call site is rewritten at the call's own position
